@@ -143,3 +143,16 @@ where
     }
     private_impl! {}
 }
+
+#[cfg(rust_ndarray_ndarray_stats_verif)]
+pub fn verif_lower_index(q: N64, len: usize) -> usize {
+    lower_index(q, len)
+}
+#[cfg(rust_ndarray_ndarray_stats_verif)]
+pub fn verif_higher_index(q: N64, len: usize) -> usize {
+    higher_index(q, len)
+}
+#[cfg(rust_ndarray_ndarray_stats_verif)]
+pub fn verif_index_fraction(q: N64, len: usize) -> N64 {
+    float_quantile_index_fraction(q, len)
+}
